@@ -8,6 +8,7 @@ import (
 	"github.com/gogo/status"
 
 	"google.golang.org/grpc"
+	"google.golang.org/grpc/codes"
 )
 
 func UnaryServerInterceptor(
@@ -24,6 +25,13 @@ func UnaryServerInterceptor(
 	st, ok := status.FromError(err)
 	if !ok {
 		code := extgrpc.GetGrpcCode(err)
+		if code == codes.OK {
+			// A non-nil error cannot travel with status OK: gRPC would
+			// report success to the caller (and refuses to attach details).
+			// The code attached to the error still travels inside the
+			// encoded error below.
+			code = codes.Unknown
+		}
 		st = status.New(code, err.Error())
 		enc := errors.EncodeError(ctx, err)
 		st, err = st.WithDetails(&enc)
